@@ -9,6 +9,7 @@ import AgeModel.Extracted.CallOrder
 import AgeModel.Extracted.Consts
 import Proofs.GoTieScrypt
 import Proofs.GoTieScryptCtor
+import Proofs.GoTieCliLazy
 namespace AgeModel
 namespace Tie.C10
 
@@ -98,6 +99,23 @@ theorem setMaxWorkFactor_tie (i : Extracted.age_ScryptIdentity) (logN : Int) :
     Extracted.age_ScryptIdentity_SetMaxWorkFactor i logN =
       if 1 ≤ logN ∧ logN ≤ 30 then .ok { i with maxWorkFactor := logN } else .error (.panic 0) :=
   GoTie.setMaxWorkFactor_tie i logN
+
+/-! cmd/age's own passphrase identity, `(*LazyScryptIdentity).Unwrap` (cmd/age/encrypted_keys.go),
+translated down through `NewScryptIdentity` and `(*ScryptIdentity).Unwrap`: it is the model's
+`CliIdent.lazyUnwrap` with the default maximum 22 — the passphrase is asked for EXACTLY when the
+header is one passphrase stanza (a callback that FAULTS when called is not reached otherwise), a
+passphrase stanza that is not alone is refused at once, a wrong passphrase is fatal. -/
+
+theorem lazy_unwrap_tie (P : Prims) (E : GoTie.ScryptEnv P) (eCb : Go.Err) (ask : Option Bytes) (ss : List Format.Stanza) :
+    ∃ r, Extracted.main_LazyScryptIdentity_Unwrap GoTie.errorsIsEq E.D E.K E.A ⟨GoTie.cbOf eCb ask⟩ (ss.map GoTie.toGoStanza) = .ok r ∧
+      GoTie.resClass r = (CliIdent.lazyUnwrap P ask 22 ss).1 :=
+  GoTie.lazy_unwrap_tie P E eCb ask ss
+
+theorem lazy_unwrap_no_prompt (P : Prims) (E : GoTie.ScryptEnv P) (ss : List Format.Stanza)
+    (h : (CliIdent.lazyUnwrap P none 22 ss).2 = false) :
+    ∃ r, Extracted.main_LazyScryptIdentity_Unwrap GoTie.errorsIsEq E.D E.K E.A ⟨.error (.panic 99)⟩ (ss.map GoTie.toGoStanza) = .ok r ∧
+      GoTie.resClass r = (CliIdent.lazyUnwrap P none 22 ss).1 :=
+  GoTie.lazy_unwrap_no_prompt P E ss h
 
 end Tie.C10
 end AgeModel
